@@ -6,7 +6,7 @@
 (* CallBuiltin(f, hasRecv, recv, args) is an abstract outcome; a function *)
 (* for which no property gives a meaning on the given shape is AnyOut.       *)
 (***************************************************************************)
-EXTENDS Strings
+EXTENDS Time
 
 Digit0 == 48
 IsDigitCp(c) == c >= 48 /\ c <= 57
@@ -284,10 +284,41 @@ MathFunc(f, all) ==
       [] OTHER -> AnyOut
 MathFuncNames == {"abs", "sqrt", "log", "lg", "ceil", "floor", "round", "pow"}
 
+(* time (C16) *)
+HasDigit(s) == \E i \in 1..Len(s) : IsDigitCp(s[i])
+TimeAccessor(f, recv, args) ==
+    IF recv.t = "ts" THEN
+       (IF Len(args) = 0 THEN Ok(VInt(BFromInt(TsAccessor(f, recv.ns, 0))))
+        ELSE IF Len(args) = 1 /\ args[1].t = "str" THEN (IF args[1].s = UTCName THEN Ok(VInt(BFromInt(TsAccessor(f, recv.ns, 0)))) ELSE AnyOut)
+        ELSE Err("other"))
+    ELSE IF recv.t = "dur" /\ f \in DurAccessorNames THEN (IF Len(args) = 0 THEN Ok(VInt(DurAccessor(f, recv.ns))) ELSE Err("other"))
+    ELSE Err("other")
+ConvTimestamp(args) ==
+    IF Len(args) = 0 THEN AnyOut
+    ELSE IF Len(args) # 1 THEN Err("other")
+    ELSE LET v == args[1] IN
+      CASE v.t = "ts" -> Ok(v)
+        [] v.t \in {"int", "uint"} -> TsResult(BMul(v.n, [s |-> 1, m |-> NsPerSec]))
+        [] v.t = "str" -> LET p == ParseRfc3339(v.s) IN IF p.ok THEN TsResult(p.ns) ELSE IF HasDigit(v.s) THEN AnyOut ELSE Err("other")
+        [] OTHER -> Err("other")
+ConvDuration(args) ==
+    IF Len(args) = 1 THEN
+       (CASE args[1].t = "dur" -> Ok(args[1])
+          [] args[1].t = "int" -> DurResult(BMul(args[1].n, [s |-> 1, m |-> NsPerSec]))
+          [] args[1].t = "str" -> IF HasDigit(args[1].s) THEN AnyOut ELSE Err("other")
+          [] OTHER -> Err("other"))
+    ELSE IF Len(args) = 2 /\ args[1].t = "int" /\ args[2].t = "int" THEN
+       (IF args[2].n.s >= 0 /\ BCmp(args[2].n, [s |-> 1, m |-> NsPerSec]) < 0
+        THEN DurResult(BAdd(BMul(args[1].n, [s |-> 1, m |-> NsPerSec]), args[2].n)) ELSE AnyOut)
+    ELSE Err("other")
+
 CallBuiltin(f, hasRecv, recv, args) ==
     LET all == IF hasRecv THEN <<recv>> \o args ELSE args
         n   == Len(all)
-    IN CASE f \in StringFuncNames -> IF hasRecv THEN StringFunc(f, recv, args) ELSE AnyOut
+    IN CASE f \in TsAccessorNames -> IF hasRecv THEN TimeAccessor(f, recv, args) ELSE AnyOut
+         [] f = "timestamp" -> IF hasRecv THEN AnyOut ELSE ConvTimestamp(args)
+         [] f = "duration" -> IF hasRecv THEN AnyOut ELSE ConvDuration(args)
+         [] f \in StringFuncNames -> IF hasRecv THEN StringFunc(f, recv, args) ELSE AnyOut
          [] f \in MathFuncNames -> IF hasRecv THEN AnyOut ELSE MathFunc(f, all)      \* documented as functions, not methods
          [] f = "size"   -> IF n = 1 THEN Size(all[1]) ELSE Err("other")
          [] f = "int"    -> IF hasRecv THEN AnyOut ELSE IF n = 1 THEN ConvInt(all[1]) ELSE Err("other")
